@@ -144,6 +144,10 @@ def e2e_candidates(case):
         yield d
     for x in ('cancels',):
         for i, cc in enumerate(c.get(x) or []):
+            if cc.get('calls', 0) > 1:
+                d = copy.deepcopy(c)
+                d[x][i]['calls'] = cc['calls'] - 1
+                yield d
             if cc.get('at'):
                 for nv in (0, cc['at'] // 2):
                     d = copy.deepcopy(c)
